@@ -119,7 +119,7 @@ func c13CorruptionScenario(enabledZC bool, il bool, from, to int, doubleBits boo
 			for _, raw := range pool {
 				nbits := len(raw) * 8
 				for b := 0; b < nbits; b++ {
-					for b2 := -1; b2 < 32*8; b2++ {
+					for b2 := -1; b2 < 32*8 && b2 < nbits; b2++ {
 						if b2 >= 0 && (!doubleBits || b2 <= b || b >= 32*8) {
 							continue
 						}
